@@ -387,7 +387,8 @@ cls("Transform", fields={k: REAL for k in _T6}, notes="fontTools Transform: immu
 def _six(ex, st, v, node=None):
     """six REAL Vals from a Transform reference, a python tuple of Vals/constants, or a Tuple-typed value"""
     if isinstance(v.ty, T.Ref):
-        return [ex.read_field(st, v, k) for k in _T6]
+        # direct array reads (ex.read_field stringifies the receiver term for its python-level field table: very slow on ite-terms)
+        return [Val(REAL, z3.Select(ex.field_array(st, "Transform", k), lift(v))) for k in _T6]
     if v.is_py and isinstance(v.py, (tuple, list)) and len(v.py) == 6:
         return [x if isinstance(x, Val) else Val.const(x) for x in v.py]
     if isinstance(v.ty, T.Tuple) and len(v.ty.items) == 6:
